@@ -350,7 +350,7 @@ def step_schema():
         'tds.config.max_iter': TInt(), 'tds.config.tol': TReal(), 'tds.config.chatter_iter': TInt(), 'tds.tol_zero': TReal(),
         'tds.system.dae.gx': M.MatT, 'tds.system.dae.gy': M.MatT, 'tds.system.dae.fx': M.MatT, 'tds.system.dae.fy': M.MatT,
         'tds.Ac': M.MatT, 'tds.inc': TArr(nan=True), 'tds.err_msg': TStr(), 'tds.system.exist.pflow_tds': Models,
-        'tds.solver.worker.factorize': TBool(), 'tds.system.antiwindups': TOpaque('AWList'),
+        'tds.solver.worker.factorize': TBool(), 'tds.jacobian_rebuilt_in_this_iteration': TBool(), 'tds.system.antiwindups': TOpaque('AWList'),
         'tds.system.dae.xy_name': TSeq(elem=TStr.sort),
     }
 
@@ -424,12 +424,28 @@ def step(pid, drop=()):
         raise Unsupported('setitem on %r' % (base,))
 
     solver_spec = dict(returns=TArr(nan=True), name='Solver.solve')
+    _jup = spec(modifies=['tds.system.dae.fx', 'tds.system.dae.fy', 'tds.system.dae.gx', 'tds.system.dae.gy'], name='System.j_update')
+
+    def j_update_rebuilt(ex, st, args, kw, node):
+        r = _jup(ex, st, args, kw, node)
+        st.store('tds.jacobian_rebuilt_in_this_iteration', z3.BoolVal(True))      # ghost field (merges with the paths that did not rebuild)
+        return r
 
     def mk_solve(nm):
         def len_post(old, new, res, args, kw):
             return new.st.content(res).n == new.z('tds.system.dae.n') + new.z('tds.system.dae.m')
-        return spec(requires=[('rhs-is-the-integration-rule-residual', solve_pre_residual)], returns=TArr(nan=True),
-                    ensures=[len_post], name=nm)
+        inner = spec(requires=[('rhs-is-the-integration-rule-residual', solve_pre_residual)], returns=TArr(nan=True),
+                     ensures=[len_post], name=nm)
+
+        def h(ex, st, args, kw, node):
+            # a back end that keeps a factorisation between calls (SciPy splu) renews it only on request: whenever the matrix was
+            # re-evaluated in this iteration, the request flag is up when the solver is called
+            ex.oblige(st, 'pre@call:%s:factorisation-refresh-requested-after-every-Jacobian-rebuild' % nm,
+                      z3.Implies(to_b(st.load('tds.jacobian_rebuilt_in_this_iteration')), to_b(st.load('tds.solver.worker.factorize'))), {})
+            r = inner(ex, st, args, kw, node)
+            st.store('tds.jacobian_rebuilt_in_this_iteration', z3.BoolVal(False))
+            return r
+        return h
 
     def inv_snapshot(v):
         o = v.ex.old
@@ -480,11 +496,11 @@ def step(pid, drop=()):
                                              v.arr('tds.qg').n == v.z('tds.system.dae.n') + v.z('tds.system.dae.m'))),
                   ('tol-positive', lambda v: v.z('tds.config.tol') > 0),
                   ('max_iter-nonneg', lambda v: v.z('tds.config.max_iter') >= 0),
-                  ('chatter-flag-clear-on-entry', lambda v: z3.Not(v.z('tds.chatter')))],
+                  ('chatter-flag-clear-on-entry', lambda v: z3.Not(v.z('tds.chatter'))),
+                  ('ghost:no-rebuild-pending-on-entry', lambda v: z3.Not(v.z('tds.jacobian_rebuilt_in_this_iteration')))],
         calls={
             'tds.fg_update': spec(modifies=FGUP, name='TDS.fg_update'),
-            'tds.system.j_update': spec(modifies=['tds.system.dae.fx', 'tds.system.dae.fy', 'tds.system.dae.gx',
-                                                  'tds.system.dae.gy'], name='System.j_update'),
+            'tds.system.j_update': j_update_rebuilt,
             'tds.method.calc_jac': spec(returns=M.MatT, name='method.calc_jac'),
             'tds.method.calc_q': calc_q_h,
             'tds.solver.solve': mk_solve('Solver.solve'), 'tds.solver.linsolve': mk_solve('Solver.linsolve'),
@@ -502,11 +518,12 @@ def step(pid, drop=()):
                             ('sizes-kept', lambda v: z3.And(
                                 v.arr('tds.qg').n == v.z('tds.system.dae.n') + v.z('tds.system.dae.m'),
                                 v.arr('tds.mis').n >= 1, v.arr('tds.mis_inc').n >= 1)),
-                            ('chatter-clear-at-loop-head', lambda v: z3.Not(v.z('tds.chatter')))],
+                            ('chatter-clear-at-loop-head', lambda v: z3.Not(v.z('tds.chatter'))),
+                            ('ghost:no-rebuild-pending-at-loop-head', lambda v: z3.Not(v.z('tds.jacobian_rebuilt_in_this_iteration')))],
                        frame=['tds.niter', 'tds.converged', 'tds.busted', 'tds.chatter', 'tds.err_msg', 'tds.Ac', 'tds.inc',
                               'loc:tds.qg', 'loc:tds.mis', 'loc:tds.mis_inc', 'loc:tds.system.dae.x', 'loc:tds.system.dae.y',
                               'loc:tds.system.dae.f', 'loc:tds.system.dae.g', 'tds.system.dae.fx', 'tds.system.dae.fy',
-                              'tds.system.dae.gx', 'tds.system.dae.gy', 'tds.solver.worker.factorize',
+                              'tds.system.dae.gx', 'tds.system.dae.gy', 'tds.solver.worker.factorize', 'tds.jacobian_rebuilt_in_this_iteration',
                               '$reason', '$gxs', '$gys', '$inc', '$mis_arg', '$mis_inc', '$mis_qg_arg', '$mis_qg', '$mis']),
                1: Loop(summary=aw_summary)},
         ensures=[('returns-converged-flag-and-records-it', post_flag),
@@ -577,6 +594,12 @@ def run(pid, drop=()):
     ghost0 = {'fired': 0, 'stored': False}
 
     def store_h(ex, st, args, kw, node):
+        # a row is the state of an accepted step: DAE.store is called inside an iteration of the stepping loop, after a step that
+        # converged, while dae.t is still the time that step integrated to -- never once more after the loop
+        stt = st.ghost.get('status')
+        ok = z3.BoolVal(False) if (not st.ghost.get('in_iter') or stt is None) else z3.And(stt if z3.is_expr(stt) else z3.BoolVal(bool(stt)),
+                                                                                       st.load('self.system.dae.t').val == st.ghost['t_head'])
+        ex.oblige(st, 'pre@call:DAE.store:only-for-an-accepted-step,at-the-time-it-integrated-to', ok, {})
         st.ghost['stored'] = True
         return None
 
